@@ -51,9 +51,15 @@ def gen_ops(ctx: Ctx, P, M):
     leaves = P.leaves()
     rg = [i for i in leaves if P.nodes[i].rg]
     ops = []
+    def content(k):
+        # pre-existing content: small integers, or — in a double-precision leaf — integers around 2^30 that single precision
+        # cannot hold (old + update must be formed in the accumulator's own precision)
+        if not P.nodes[k].flip and rng.random() < 0.4:
+            return [rng.choice([-1, 1]) * (2 ** 30 + 2 * rng.randint(0, 50) + 1) for _ in range(numel(P.nodes[k].shape))]
+        return [rng.randint(-9, 9) for _ in range(numel(P.nodes[k].shape))]
     for k in rg:
         if rng.random() < 0.3:
-            ops.append(("set", k, [rng.randint(-9, 9) for _ in range(numel(P.nodes[k].shape))]))
+            ops.append(("set", k, content(k)))
     n = rng.choice([1, 2, 3, 4, 5, 6])
     calls = []
     for _ in range(n):
@@ -95,7 +101,7 @@ def gen_ops(ctx: Ctx, P, M):
             if pairs:
                 a, b = rng.choice(pairs)
                 if rng.random() < 0.5:
-                    ops.append(("set", a, [rng.randint(-9, 9) for _ in range(numel(P.nodes[a].shape))]))
+                    ops.append(("set", a, content(a)))
                 ops.append(("alias", a, b))
                 # ... and a call that requests both of them
                 cands = differentiable_nonleaves(P)
@@ -254,13 +260,29 @@ def low_precision_accumulators(ctx: Ctx):
     other.grad = other_old.clone()
     u = torch.tensor([float(v) for v in upd], dtype=dt)    # rounds to ±inf exactly when the update leaves the range
     expected = torch.tensor(old, dtype=dt)
-    calls = rng.randint(1, 3)
+    calls = rng.randint(1, 4)
     rp = {"scenario": "low-precision accumulator", "dtype": str(dt), "old": [str(v) for v in old], "update": upd, "calls": calls,
           "c": c, "w": w, "scale": scale}
     ctx.case(("lowprec", str(dt), tuple(str(v) for v in old), tuple(upd), calls), nontrivial=True,
              sample={"scenario": "low-precision accumulator", "dtype": str(dt), "old": [str(v) for v in old], "update": upd})
     ctx.count("low_precision_accumulators", str(dt))
     for k in range(calls):
+        if k > 0 and rng.random() < 0.5:
+            # an edit of the accumulator between two calls (what an optimizer or a gradient-scaling step does): the next call
+            # adds to what .grad holds NOW — no memory of earlier sums
+            edit = rng.choice(["zero_", "mul_", "assign"])
+            rp.setdefault("edits", []).append([k, edit])
+            if edit == "zero_":
+                p.grad.zero_()
+                expected = torch.zeros_like(expected)
+            elif edit == "mul_":
+                p.grad.mul_(0.5)
+                expected = expected * 0.5
+            else:
+                new = torch.tensor([float(rng.randint(-3, 3)) for _ in range(n)], dtype=dt)
+                p.grad = new
+                keep = new
+                expected = new.clone()
         try:
             backward(y, Constant(torch.tensor([float(v) for v in w], dtype=dt)), inputs=[p], retain_graph=True)
         except Exception as e:  # noqa: BLE001
